@@ -194,28 +194,28 @@ func c05random(c *Ctx, label string, nh int, distinct bool) {
 				}
 				return
 			}
-			if !distinct && label == "c05" && i%12 == 11 && i < 60 {
-			// a large buffer that holds little: pre-allocated (as NewWithData's documentation
-			// suggests), emptied by Clear, or replaced by a short Set; then Pop / Set / Pop
-			// (only Set-built heaps and Pop, which the known findings do not touch)
-			do(Op{"op": "new", "dir": dir, "vs": mkn(rng.Intn(3)), "spare": 4096 + rng.Intn(6000)})
-			do(Op{"op": "pop"})
-			do(Op{"op": "set", "vs": mkn(4200 + rng.Intn(3000))})
-			do(Op{"op": "pop"})
-			if rng.Intn(2) == 0 {
-				do(Op{"op": "clear"})
-			} else {
-				do(Op{"op": "set", "vs": mkn(1 + rng.Intn(4))})
-			}
-			do(Op{"op": "pop"})
-			do(Op{"op": "set", "vs": mkn(2 + rng.Intn(4))})
-			for st.q.Len() > 0 {
+			if !distinct && label == "c05" && i%12 == 10 && i < 60 {
+				// a large buffer that holds little: pre-allocated (as NewWithData's documentation
+				// suggests), emptied by Clear, or replaced by a short Set; then Pop / Set / Pop
+				// (only Set-built heaps and Pop, which the known findings do not touch)
+				do(Op{"op": "new", "dir": dir, "vs": mkn(rng.Intn(3)), "spare": 4096 + rng.Intn(6000)})
 				do(Op{"op": "pop"})
+				do(Op{"op": "set", "vs": mkn(4200 + rng.Intn(3000))})
+				do(Op{"op": "pop"})
+				if rng.Intn(2) == 0 {
+					do(Op{"op": "clear"})
+				} else {
+					do(Op{"op": "set", "vs": mkn(1 + rng.Intn(4))})
+				}
+				do(Op{"op": "pop"})
+				do(Op{"op": "set", "vs": mkn(2 + rng.Intn(4))})
+				for st.q.Len() > 0 {
+					do(Op{"op": "pop"})
+				}
+				do(Op{"op": "pop"})
+				return
 			}
-			do(Op{"op": "pop"})
-			return
-		}
-		do(Op{"op": "new", "dir": dir, "vs": mkn([]int{0, 0, 1, 2, 5, 9, 17}[rng.Intn(7)]), "spare": rng.Intn(4)})
+			do(Op{"op": "new", "dir": dir, "vs": mkn([]int{0, 0, 1, 2, 5, 9, 17}[rng.Intn(7)]), "spare": rng.Intn(4)})
 			maxLen := []int{8, 16, 40}[rng.Intn(3)]
 			nops := 30 + rng.Intn(c.Pick(70, 160))
 			for j := 0; j < nops; j++ {
